@@ -82,6 +82,7 @@ structure View (σ : Sig) where
 structure Env (σ : Sig) where
   fullLexer : Bool                                   -- cfg(feature = "full-lexer")
   isTrivia : σ.T → Bool                              -- `Ok((Tok::Comment{..} | Tok::NonLogicalNewline, _))`
+  tokStart : σ.T → Option Nat                        -- `Ok((_, range))` ↦ `some range.start()`; a lexical-error item ↦ `none`
   marker : Mode → Nat → Nat → σ.T                    -- `Ok((Tok::start_marker(mode), start..end))`
   lexTop : Mode → Nat → σ.Src → List σ.T             -- `lexer::lex_starts_at(source, mode, offset)` collected
   parseTop : Mode → List σ.T → Res (Mod σ)           -- `python::TopParser::new().parse(..)` + `parse_error_from_lalrpop`
@@ -107,17 +108,36 @@ variable {σ : Sig} (env : Env σ)
 def filterTrivia (toks : List σ.T) : List σ.T :=
   if env.fullLexer then toks.filter (fun t => !env.isTrivia t) else toks
 
-/-- `parse_filtered_tokens`: the start marker gets `Default::default()` = `0..0` as its range -/
+/-- `match lxr.peek() { Some(Ok((_, range))) => range.start(), _ => TextSize::default() }` -/
+def markerStart (toks : List σ.T) : Nat :=
+  match toks with
+  | [] => 0
+  | t :: _ =>
+    match env.tokStart t with
+    | some s => s
+    | none => 0
+
+/-- `fn not_before(err, offset)`: `if err.offset < offset { err.offset = offset }`, under `map_err` -/
+def notBefore {α : Type} (k : Nat) : Res α → Res α
+  | .ok a => .ok a
+  | .err kind o => .err kind (if o < k then k else o)
+  | .panic => .panic
+
+/-- `parse_filtered_tokens`: drops comment / non-logical-newline tokens (cfg `full-lexer`), peeks the
+    first remaining item, gives the start marker the EMPTY range at that item's start (`0..0` when the
+    stream is empty or starts with a lexical error) and runs the LALRPOP parser on marker + stream -/
 def parseFiltered (mode : Mode) (toks : List σ.T) : Res (Mod σ) :=
-  env.parseTop mode (env.marker mode 0 0 :: toks)
+  let lxr := filterTrivia env toks
+  let ms := markerStart env lxr
+  env.parseTop mode (env.marker mode ms ms :: lxr)
 
-/-- `pub fn parse_tokens` -/
+/-- `pub fn parse_tokens` (nothing but the call of `parse_filtered_tokens`) -/
 def freeParseTokens (mode : Mode) (toks : List σ.T) : Res (Mod σ) :=
-  parseFiltered env mode (filterTrivia env toks)
+  parseFiltered env mode toks
 
-/-- `pub fn parse_starts_at` -/
+/-- `pub fn parse_starts_at`: `parse_tokens(lex_starts_at(..)).map_err(|err| not_before(err, offset))` -/
 def freeParseStartsAt (mode : Mode) (src : σ.Src) (k : Nat) : Res (Mod σ) :=
-  freeParseTokens env mode (env.lexTop mode k src)
+  notBefore k (freeParseTokens env mode (env.lexTop mode k src))
 
 /-- `pub fn parse` -/
 def freeParse (mode : Mode) (src : σ.Src) : Res (Mod σ) :=
@@ -149,8 +169,9 @@ def modInteractiveTokens (toks : List σ.T) : Res (ModInteractive σ) :=
 def suiteTokens (toks : List σ.T) : Res (List σ.S) :=
   (modModuleTokens env toks).map (·.body)
 
-/-- `impl Parse for ast::Stmt`: zero statements → `Eof` at `TextSize::default()` (NOT at the start
-    offset); two or more → `InvalidToken` at the start of the second statement -/
+/-- `impl Parse for ast::Stmt`: zero statements → `Eof` at `TextSize::default()` (lifted to the start
+    offset by `not_before` in `parse_starts_at`, not here: `parse_tokens` has no offset argument);
+    two or more → `InvalidToken` at the start of the second statement -/
 def stmtTokens (toks : List σ.T) : Res σ.S :=
   (modModuleTokens env toks).bind fun m =>
     match m.body with
@@ -221,7 +242,7 @@ def Ty.lexMode : Ty → Mode
 /-- `T::lex_starts_at(source, offset)` -/
 def Ty.lexStartsAt (ty : Ty) (src : σ.Src) (k : Nat) : List σ.T := env.lexTop ty.lexMode k src
 
-/-- `T::parse_tokens(lxr, path)` — note: no trivia filter here -/
+/-- `T::parse_tokens(lxr, path)`: every implementation ends in `parse_filtered_tokens`, which filters -/
 def Ty.parseTokens (ty : Ty) (toks : List σ.T) : Res (Out σ) :=
   match ty with
   | .modModule => (modModuleTokens env toks).map .modModule
@@ -234,9 +255,10 @@ def Ty.parseTokens (ty : Ty) (toks : List σ.T) : Res (Out σ) :=
   | .constant => (constantTokens env toks).map .const
   | .typed p => (typedTokens env p toks).map .payload
 
-/-- the trait's provided method `parse_starts_at` (filters trivia under `full-lexer`) -/
+/-- the trait's provided method `parse_starts_at`:
+    `Self::parse_tokens(Self::lex_starts_at(source, offset), path).map_err(|err| not_before(err, offset))` -/
 def Ty.parseStartsAt (ty : Ty) (src : σ.Src) (k : Nat) : Res (Out σ) :=
-  ty.parseTokens env (filterTrivia env (ty.lexStartsAt env src k))
+  notBefore k (ty.parseTokens env (ty.lexStartsAt env src k))
 
 /-- provided methods `parse` and `parse_without_path` (the path only labels errors) -/
 def Ty.parse (ty : Ty) (src : σ.Src) : Res (Out σ) := ty.parseStartsAt env src 0
